@@ -121,7 +121,7 @@ Definition judge_glue (stream api : string) (st : list sexp) (robs : option resp
     | _, _, _, _ => v_bad "stages"
     end.
 
-Definition check (c : sexp) : sexp :=
+Definition check_glue (c : sexp) : sexp :=
   match tagged "case" c with
   | None => v_bad "shape"
   | Some l =>
